@@ -4,7 +4,7 @@ The references are counter models written from the register descriptions in the 
   Timer    : disabled -> count = load; enabled -> one step down per cycle; at 0 -> reload (reload = 0 keeps 0: one-shot); `zero` event = rising edge
              of (count == 0); update_value latches the count.
   Watchdog : feed loads `cycles`, enabled (and not paused) -> one step down per cycle, saturating at 0; time-out while enabled and 0; event on the
-             rising edge of the time-out; reset output after reset_delay further cycles in reset mode.
+             rising edge of the time-out; reset output while (enabled, timed out, reset mode) holds and has held for reset_delay cycles.
   PWM      : enabled, period P >= 1, width W: in steady state the output is periodic with period P and high for min(W, P) cycles of each period; disabled -> low.
 CSR convention (C12): a bus write in cycle n is visible to the core in cycle n+1 (storage, re and pulse fields)."""
 import fsmc  # noqa
@@ -199,10 +199,12 @@ class WatchdogHarness(CsrCoreHarness):
             return env, ("watchdog.event", f"wdt event pending = {v[i['pend']]}, reference {pend} (remaining={rem} time-out={tmo} enabled={enabled})"), 0
         if v[i["irq"]] != (pend & even):
             return env, ("watchdog.irq", f"irq = {v[i['irq']]}, pending = {pend}, enable = {even}"), 0
-        # reset_delay = 0 means "reset together with the time-out", not "reset for ever"
-        exp_rst = int(wt >= self.reset_delay) if self.reset_delay else (enabled & tmo & rstm)
+        # the reset output is asserted while the condition (enabled & timed out & reset mode) holds and has held for the previous reset_delay
+        # cycles; reset_delay = 0 therefore means "together with the time-out", never "for ever"
+        wait_now = enabled & tmo & rstm
+        exp_rst = int(bool(wait_now and wt >= self.reset_delay))
         if v[i["rst"]] != exp_rst:
-            return env, ("watchdog.reset", f"crg_rst = {v[i['rst']]} after {wt} consecutive cycles of (enabled & timed out & reset mode), now {enabled & tmo & rstm} "
+            return env, ("watchdog.reset", f"crg_rst = {v[i['rst']]}: condition (enabled & timed out & reset mode) = {wait_now} now, held for the previous {wt} cycles "
                                            f"(reset_delay = {self.reset_delay}, enable={en} time-out={tmo} reset mode={rstm})"), 0
         self.resets += exp_rst
         if trigger and not trig_d:
